@@ -112,8 +112,14 @@ def exactness_failure(rec, dt, T, xi):
     ru, rv = reference_series(rec, dt, T, xi)
     ru, rv = np.array(ru), np.array(rv)
     b = rounding_bound(len(rec), dt, T)
-    for nm, x, y in (('u', u, ru), ('v', v, rv)):
-        pk = max(np.max(np.abs(y)), 1e-300)
+    w = 2 * math.pi / T
+    # "series peak": the peak of the state norm in the units of each series (max|u| + max|v|/w for u, w*max|u| + max|v| for v),
+    # so that a velocity series that is identically zero at the sample instants (T/dt = 0.2, 0.5, 1 with xi = 0) does not
+    # make every rounding error infinitely large relative to its own peak
+    pu, pv = float(np.max(np.abs(ru))), float(np.max(np.abs(rv)))
+    stat = float(np.max(np.abs(rec))) / w ** 2      # static displacement of the largest load: floor for the scale when the exact
+    for nm, x, y, pk in (('u', u, ru, max(pu + pv / w, stat)), ('v', v, rv, max(w * pu + pv, w * stat))):   # state is zero at every sample instant
+        pk = max(pk, 1e-300)
         err = float(np.max(np.abs(x - y)) / pk)
         if not (err <= b):
             return {'series': nm, 'relative_error': err, 'bound': b, 'index': int(np.argmax(np.abs(x - y)))}
